@@ -243,6 +243,9 @@ def run(chk):
         if r1 / n1 < 0.9:
             ex = next((v[2] for k, v in stat.items() if k[0] == 'gross' and v[2]), trials[0][5].lines)
             chk.violation('gross', 'a standard off by 100 standard deviations is rejected in only %d of %d solves' % (r1, n1), ex)
+    # 2b. over-determined in some column systems only
+    if not chk.violations:
+        uneven(chk, exe, rng, 1 if quick else 5)
     # 3a. rectangular calibrations
     if not chk.violations:
         rectangular(chk, exe, rng, 6 if quick else 30)
@@ -295,6 +298,47 @@ def rectangular(chk, exe, rng, reps):
             return
         chk.count('rect_noisy_solves', tot)
         chk.count('rect_noisy_rejected', rej)
+
+
+def uneven(chk, exe, rng, reps):
+    """over-determined in some column systems only (12-/14-term models): short-open-load-through plus more known reflects on *one* port.
+    Exact data with the error model on are accepted and give the unweighted calibration, whichever port has the extra standards"""
+    from props import c02
+    for _ in range(reps):
+        for typ in ('UE14', 'E12'):
+            for n in (2, 3):
+                for port in range(1, n + 1):
+                    seed = rng.randrange(1 << 30)
+                    res = []
+                    for merr in (False, True):
+                        r2 = random.Random(seed)
+                        sc = c02.Sc(r2, typ, n, n, r2.choice([1, 2]), form='m').begin()
+                        if merr:
+                            sc.lines.append('cal new_set_m_error %d 1 N S %s T %s' % (sc.n, vlib.d2h(1e-4), vlib.d2h(1e-2)))
+                        sc.solt()
+                        for _ in range(2):
+                            g = calsim.rc(r2, 0.5)
+                            sc.std1(port, sc.scalar(g), g)
+                        sc.solve().add_calibration(b'c')
+                        dut = sc.random_dut()
+                        sc.lines += [sc.apply_line(0, dut), 'cal free 0', 'cal live']
+                        out, rc, err = vlib.run_lines(exe, sc.lines, timeout=600)
+                        chk.evaluations += 1
+                        tag = '%s %dx%d, two more known reflects on port %d only%s' % (typ, n, n, port, ', error model on' if merr else '')
+                        if rc != 0 or len(out) != len(sc.lines):
+                            chk.violation('sanitizer-uneven', '%s: crash / sanitizer report:\n%s' % (tag, err[-1200:]), sc.lines[:len(out) + 1])
+                            return
+                        bad = [(l, o) for l, o in zip(sc.lines, out) if not o.startswith('ok')]
+                        if bad:
+                            chk.violation('exact-rejected-uneven', '%s: exact data: `%s` -> %s' % (tag, bad[0][0][:60], bad[0][1][:80]), sc.lines[:sc.lines.index(bad[0][0]) + 1])
+                            return
+                        res.append((calsim.parse_apply(out[-3], n)[1], dut, sc.lines))
+                    d = max(float(np.abs(a - b).max()) for a, b in zip(res[0][0], res[1][0]))
+                    e = max(float(np.abs(a - b).max()) for a, b in zip(res[1][0], res[1][1]))
+                    if not (d <= 1e-7 and e <= 1e-7):
+                        chk.violation('exact-bias-uneven', '%s: weighted and unweighted calibrations differ by %.3e (weighted from the truth by %.3e)' % (tag, d, e), res[1][2][:-2])
+                        return
+                    chk.count('uneven_exact_ok')
 
 
 def swap_ports_line(l):
